@@ -779,7 +779,7 @@ class C01(Property):
             for h in itertools.product(core, repeat=n):
                 i += 1
                 yield self._mk(list(h), i)
-        n_rand = 60000 if self.thorough else 3500
+        n_rand = 45000 if self.thorough else 3500
         for j in range(n_rand):
             yield self.random_case(rng, long=self.thorough and j % 8 == 0)
 
